@@ -516,6 +516,10 @@ class Sim:
         ev["res"] = "ok"
         cl.obj = new
         self.env[cl.name] = new
+        # copying may lay stored arrays out differently in memory (a view of the caller's
+        # DataFrame becomes a contiguous array), which moves the last bit of
+        # layout-sensitive sums: float outputs are judged to rounding until the next fit
+        cl.tolerant = True
         # a scorer client that had been refitted by sharers keeps its ambiguity; nothing
         # else changes in the model
         self.probe("continued_with_copy")
